@@ -8,7 +8,7 @@ import core
 import gen
 
 PID = 'C20'
-MODULES = ['FFVerif.Proofs.C20', 'FFVerif.Proofs.C20Gram', 'FFVerif.Proofs.C20Grad', 'FFVerif.Proofs.C20Align', 'FFVerif.Proofs.C20GramModel', 'FFVerif.Proofs.C20Deriv']
+MODULES = ['FFVerif.Proofs.C20', 'FFVerif.Proofs.C20Gram', 'FFVerif.Proofs.C20Grad', 'FFVerif.Proofs.C20Align', 'FFVerif.Proofs.C20GramModel', 'FFVerif.Proofs.C20Deriv', 'FFVerif.Proofs.C20Hess']
 
 
 def fail(res, clause, case, out):
